@@ -18,6 +18,7 @@ from .sym import Encoder, EncodeError, to_sym
 TIMEOUT_MS = int(os.environ.get("WGVC_TIMEOUT_MS", "90000"))   # budget of the slow strategies
 FIRST_MS = int(os.environ.get("WGVC_FIRST_MS", "10000"))       # budget of the default strategy
 WORKERS = int(os.environ.get("WGVC_WORKERS", "16"))
+PRESAMPLE_MIN_OPS = int(os.environ.get("WGVC_PRESAMPLE_MIN_OPS", "80"))
 
 
 @dataclass
@@ -126,7 +127,7 @@ def _run_z3_api(smt2: str, timeout_ms: int, tactic: str | None = None):
     return str(r), model, time.time() - t0, reason
 
 
-def _try_hint(smt2: str, hint: dict, timeout_ms: int = 5000):
+def _try_hint(smt2: str, hint: dict, timeout_ms: int = 5000, ints=()):
     """A contract may supply typical parameter values; they only restrict the search for a model (sound for sat)."""
     from .sym import smt_name
     s = z3.Solver()
@@ -134,7 +135,12 @@ def _try_hint(smt2: str, hint: dict, timeout_ms: int = 5000):
     s.from_string(smt2)
     t0 = time.time()
     for k, v in hint.items():
-        s.add(z3.Real(smt_name(k)) == z3.RealVal(str(v)))
+        if isinstance(v, bool):
+            continue
+        if isinstance(v, int) and ints and k in ints:
+            s.add(z3.Int(smt_name(k)) == z3.IntVal(v))
+        else:
+            s.add(z3.Real(smt_name(k)) == z3.RealVal(str(v)))
     if s.check() == z3.sat:
         m = s.model()
         return "sat", {d.name(): str(m[d]) for d in m.decls()}, time.time() - t0
@@ -224,6 +230,42 @@ def _instantiate_search(smt2: str, tries: int, seed: int, index_consts=(), per_t
     return "unknown", {}, time.time() - t0
 
 
+def _certify_point(facts, goal, env: dict, timeout_ms: int = 20000):
+    """The obligation instantiated at the rational point ``env`` (exact substitution), decided by z3: sat = the point is a counter-model."""
+    syms = set()
+    for f in list(facts) + [goal]:
+        if isinstance(f, sp.Basic):
+            syms |= f.free_symbols
+    sub = {}
+    for s_ in syms:
+        if s_.name in env:
+            v = env[s_.name]
+            sub[s_] = (sp.true if v else sp.false) if isinstance(v, bool) else (sp.Integer(v) if isinstance(v, int) else sp.Rational(v.numerator, v.denominator))
+    inst = VC("point", [to_sym(f).subs(sub) if isinstance(to_sym(f), sp.Basic) else f for f in facts],
+              to_sym(goal).subs(sub) if isinstance(to_sym(goal), sp.Basic) else goal)
+    inst.meta["expanded_goal"] = None
+    text = build_smt2(inst)
+    verdict, model, secs, _ = _run_z3_api(text, timeout_ms)
+    return verdict == "sat"
+
+
+def _presample(args):
+    """numeric counter-model search for a large closed-form obligation BEFORE the (expensive) full query is built"""
+    import pickle
+    import zlib
+    from . import falsify
+    name, blob, budget = args
+    t0 = time.time()
+    try:
+        facts, goal, ints = pickle.loads(blob)
+        env = falsify.search(facts, goal, zlib.crc32(name.encode()) & 0xffff, budget_s=budget)
+        if env and _certify_point(facts, goal, env):
+            return name, {k: str(v) for k, v in env.items()}, time.time() - t0
+    except Exception:
+        pass
+    return name, None, time.time() - t0
+
+
 def _run_cli(cmd: list, smt2: str, timeout_s: float):
     t0 = time.time()
     with tempfile.NamedTemporaryFile("w", suffix=".smt2", delete=False, dir=os.environ.get("WGVC_TMP", None)) as fh:
@@ -243,7 +285,7 @@ def _run_cli(cmd: list, smt2: str, timeout_s: float):
 
 
 def _worker(args):
-    name, fast, smt2, timeout_ms, second_opinion, index_consts, hint = args
+    name, fast, smt2, timeout_ms, second_opinion, index_consts, hint, blob = args
     secs0 = 0.0
     for label, text in (fast or []):
         # weaker queries (small facts only / no congruence): only an unsat answer is used
@@ -269,6 +311,25 @@ def _worker(args):
     secs += secs0
     backend = "z3-5.1"
     detail = reason
+    if verdict == "unknown" and blob:
+        # closed-form obligation: sample points numerically, let z3 certify the candidate on the same query (wgvc/falsify.py)
+        import pickle
+        import zlib
+        from . import falsify
+        t0 = time.time()
+        try:
+            facts, goal, ints = pickle.loads(blob)
+            env = falsify.search(facts, goal, zlib.crc32(name.encode()) & 0xffff, hint=None)
+            if env:
+                if _certify_point(facts, goal, env):
+                    from .sym import smt_name
+                    verdict, model, backend = "sat", {smt_name(k): str(v) for k, v in env.items()}, "sampling+z3-5.1"
+                    detail = "numeric candidate; obligation instantiated at the point (exact rationals) decided sat by z3"
+                else:
+                    detail = (detail + f" numeric counter-candidate not certified: { {k: str(v) for k, v in env.items()} }").strip()
+        except Exception as exc:      # the stage is an optimisation: any failure leaves the verdict to the solvers
+            detail = (detail + f" sampling stage failed: {exc!r}").strip()
+        secs += time.time() - t0
     if verdict == "unknown":
         import zlib
         v3, m3, s3 = _instantiate_search(smt2, 25, zlib.crc32(name.encode()) & 0xffff, index_consts)
@@ -316,7 +377,35 @@ def discharge(vcs: list, second_opinion: bool = False, timeout_ms: int | None = 
     """Fill verdict/backend/seconds/model of every VC."""
     tmo = timeout_ms or TIMEOUT_MS
     jobs = []
+    import pickle
+    pre = []
     for vc in vcs:
+        if vc.expect != "valid":
+            continue
+        try:
+            parts = [to_sym(f) for f in vc.facts] + [to_sym(vc.goal)]
+            if sum(sp.count_ops(x) for x in parts if isinstance(x, sp.Basic)) < PRESAMPLE_MIN_OPS:
+                continue
+            ints = tuple(s_.name for f in parts if isinstance(f, sp.Basic) for s_ in f.free_symbols if s_.is_integer)
+            pre.append((vc.name, pickle.dumps((parts[:-1], parts[-1], ints)), 1.0))
+        except Exception:
+            continue
+    refuted = {}
+    if pre:
+        if WORKERS <= 1 or len(pre) == 1:
+            res = [_presample(j) for j in pre]
+        else:
+            with ProcessPoolExecutor(max_workers=min(WORKERS, len(pre))) as ex:
+                res = list(ex.map(_presample, pre, chunksize=1))
+        refuted = {n: (m, t) for n, m, t in res if m is not None}
+    for vc in vcs:
+        if vc.name in refuted:
+            vc.verdict, vc.backend, vc.model, vc.seconds = "sat", "sampling+z3-5.1", refuted[vc.name][0], refuted[vc.name][1]
+            from .sym import smt_name
+            vc.meta["raw_model"] = {smt_name(k): v for k, v in vc.model.items()}
+            vc.detail = "numeric candidate; obligation instantiated at the point (exact rationals) decided sat by z3"
+            vc.smt2 = "; large closed-form obligation refuted at a rational point before the full query was built; model = the point"
+            continue
         try:
             vc.smt2 = build_smt2(vc)
         except EncodeError as exc:
@@ -329,7 +418,15 @@ def discharge(vcs: list, second_opinion: bool = False, timeout_ms: int | None = 
                 fast.append(("small-facts-only", build_smt2(vc, congruence=False, max_fact_size=60)))
             if vc.meta.get("apps"):
                 fast.append(("without-congruence", build_smt2(vc, congruence=False)))
-        jobs.append((vc.name, fast, vc.smt2, tmo, second_opinion, vc.meta.get("index_consts", []), vc.meta.get("hint")))
+        blob = None
+        if vc.expect == "valid" and not vc.meta.get("apps"):
+            try:
+                import pickle
+                ints = tuple(s_.name for f in list(vc.facts) + [vc.goal] if isinstance(f, sp.Basic) for s_ in f.free_symbols if s_.is_integer)
+                blob = pickle.dumps(([to_sym(f) for f in vc.facts], to_sym(vc.goal), ints))
+            except Exception:
+                blob = None
+        jobs.append((vc.name, fast, vc.smt2, tmo, second_opinion, vc.meta.get("index_consts", []), vc.meta.get("hint"), blob))
     byname = {vc.name: vc for vc in vcs}
     if len(byname) != len(vcs):
         seen = set()
